@@ -351,12 +351,19 @@ RUNS = [
 ]
 
 
-def check_runs(repo, res, rule="R-ACCEPT"):
+def check_runs(repo, res, rule="R-ACCEPT", tier="quick"):
     n = 0
     abc_cls = repo.cls(M.M_ABC, "ABC")
     gp = abc_cls.methods.get("get_posterior_sample")
+    runs = list(RUNS)
+    if tier == "thorough":
+        runs += [("smc-quantile-long", [("get_posterior_sample", dict(N=8, tol=0.25, G=4, q=0.4))]),
+                 ("smc-nearest-neighbours-long", [("get_posterior_sample", dict(N=7, tol=0.25, G=3, q=0.5, M=4))]),
+                 ("rejection-large", [("get_posterior_sample", dict(N=12, tol=0.25))]),
+                 ("continued-twice", [("get_posterior_sample", dict(N=4, tol=[0.25, 0.2], G=2)), ("continue_posterior_sample", dict(N=4, tol=[0.18, 0.15], G=2)),
+                                      ("continue_posterior_sample", dict(N=4, tol=0.12, G=1))])]
     for w0 in worlds():
-        for label, steps in RUNS:
+        for label, steps in runs:
             w = [x for x in worlds() if x.name == w0.name][0]      # a fresh world per run
             tag = "run(%s,%s)" % (w.name, label)
             problems = []
